@@ -22,6 +22,7 @@ BUDGET = {
     "quick": {"examples": 160, "shards": 4, "case_timeout": 90, "wall_budget": 240},
     "thorough": {"examples": 4000, "shards": 16, "case_timeout": 180, "wall_budget": 1800},
 }
+FUZZ = {"thorough": dict(runs=20000, procs=8, wall_s=600)}
 TOLERANCES = {"directional_derivative": "1e-6 relative (floor 1e-6 * |grad| |dir|)"}
 EPS = 1e-5
 
